@@ -321,6 +321,13 @@ def pol_tweak(pol, cfg, rng):
         # quantifier: "hands reaching a showdown are known")
         cfg['autos'] = [a for a in cfg['autos']
                         if a != 'HOLE_CARDS_SHOWING_OR_MUCKING']
+    elif rng.random() < 0.15:
+        # explicit deals, some calls mixing recorded and unrecorded cards
+        pol['deal'] = 'explicit'
+        pol['mix_unknown'] = 0.5
+        cfg['autos'] = [a for a in cfg['autos']
+                        if a not in ('HOLE_CARDS_SHOWING_OR_MUCKING',
+                                     'HOLE_DEALING')]
     pol['partial_show'] = rng.random() < 0.3
     if cfg.get('game') in gen.DRAW_GAMES and rng.random() < 0.6:
         pol['policy'] = 'drawheavy'
